@@ -36,6 +36,7 @@ static int pad_reps, pad_lines, pad_mode, pad_from, pad_count;
 static int ver[NSRC];                   /* content version of each source */
 static long mt[NSRC];                   /* its mtime */
 static int bin_exists[NBIN]; static long bin_mt[NBIN]; static int bin_ver[NBIN][NSRC];   /* versions the binary was built from */
+static int bin_sefun_file[NBIN];         /* version of the simul_efun FILE on disk when the binary was written (its stamp must not depend on it) */
 static unsigned bin_drv[NBIN];           /* driver_id the binary was written under */
 static int driver_bumped, sefun_epoch;  /* sefun_epoch: simul_efun mtime as seen by the last (re)start */
 static long sefun_seen_mt;
@@ -259,7 +260,7 @@ static object_t *do_load (int save, const char *why) {
     if (sig1[b] && (sig1[b] != sig0[b] || ns1[b] != ns0[b])) {
       bin_exists[b] = 1; bin_mt[b] = now_t; set_mtime (bin_name[b], now_t);
       for (int f = 0; f < NSRC; f++) bin_ver[b][f] = ver[f];
-      bin_ver[b][F_SEFUN] = sefun_epoch;
+      bin_ver[b][F_SEFUN] = sefun_epoch; bin_sefun_file[b] = ver[F_SEFUN];
       bin_drv[b] = vw_c17_driver_id ();
       vx_obs ("  %s: %s written", why, bin_name[b]);
     }
@@ -355,8 +356,9 @@ static void build_ops (void) {
      additions and the stamp operations, then the rest */
   { int k = 0, used[64] = { 0 };
     if (new_first) {
-      op_order[k++] = 0; used[0] = 1; op_order[k++] = 1; used[1] = 1;
-      for (int i = first_new_op; i < nops; i++) { op_order[k++] = i; used[i] = 1; }
+      op_order[k++] = 0; used[0] = 1;
+      for (int i = nops - 1; i >= first_new_op; i--) { op_order[k++] = i; used[i] = 1; }
+      op_order[k++] = 1; used[1] = 1;
       for (int i = 0; i < nops; i++) if (!used[i] && (ops[i].kind == O_SEFUN || ops[i].kind == O_DRIVERID || ops[i].kind == O_RELOADMAIN)) { op_order[k++] = i; used[i] = 1; }
     }
     for (int i = 0; i < nops; i++) if (!used[i]) op_order[k++] = i; }
@@ -447,6 +449,7 @@ static void body (void) {
     for (int b = 0; b < NBIN; b++) {
       k += snprintf (canon + k, sizeof canon - (size_t) k, "|%d@%d%s:", bin_exists[b], bin_exists[b] ? rank_of (bin_mt[b], all, n) : -1, bin_exists[b] && bin_drv[b] != vw_c17_driver_id () ? "old-id" : "");
       if (bin_exists[b]) for (int f = 0; f < NSRC; f++) k += snprintf (canon + k, sizeof canon - (size_t) k, "%d.", bin_ver[b][f]);
+      if (bin_exists[b]) k += snprintf (canon + k, sizeof canon - (size_t) k, "f%d", bin_sefun_file[b]);
     }
     vx_state (canon, (size_t) k);
     int c = pad_mode ? 0 : op_order[vx_choose_free (nops, "op")];
